@@ -82,4 +82,11 @@ def rules(t):
             r.sites += rr.sites
             for v in rr.violations: r.bad(v.key, v.site, v.msg)
     out.append(r)
+    r = RuleResult("C11.e", "one channel cannot starve the others through the shared tick budget: the budget is charged only for bytes that are emitted, behind `budget >= x` (shared with C14.a/b)", floor=3)
+    import rules.C14 as C14
+    for rr in C14.rules(t):
+        if rr.id in ("C14.a", "C14.b"):
+            r.sites += rr.sites
+            for v in rr.violations: r.bad(v.key, v.site, v.msg)
+    out.append(r)
     return out
